@@ -72,17 +72,22 @@ CHECKS.update({
                      "on-line linearizability monitor incl. non-atomic Range; TLC checks it for 2x1, 2x2, 3x1 goroutines x calls from every set-up "
                      "layout. Real goroutines are stepped hook by hook: every single-goroutine call sequence <= 3-4, every <=2-3-preemption (thorough: "
                      "full DFS) schedule of two calls from every distinct layout, random 3x1/2x2/4-goroutine schedules, free-running stress. TLC "
-                     "decides linearizability of every distinct real history (Map_Abs) and checks every fine trace step against the model.",
+                     "decides linearizability of every distinct real history (Map_Abs) and checks every fine trace step against the model. "
+                     "Set-ups are one history per value-blind internal layout, closed breadth-first (23 layouts); one-against-two programs incl. a "
+                     "brand-new third key; liveness of the model (every call returns under fair scheduling) is checked too.",
                 ref="7-C04", note=CONC_NOTE, technique=TECH_CONC),
     "C05": dict(text="As C04 with the set wrappers: TLC validates every distinct real history of Add/Remove/Has/AddSet/RemoveSet/Len from hook-level "
                      "schedules (2 goroutines exhaustively within the preemption bound, 3-8 goroutines random) against an atomic-set model in which "
                      "AddSet/RemoveSet are one atomic element operation per member; SyncMap.tla restricted to the calls the wrappers make is model-"
-                     "checked deeper (2x2, 3x1 with set-up <= 3).", ref="7-C05", note=CONC_NOTE, technique=TECH_CONC),
+                     "checked deeper (2x2, 3x1 with set-up <= 3). Set-ups: one history per internal layout of the closure (23).", ref="7-C05", note=CONC_NOTE, technique=TECH_CONC),
     "C09": dict(text="KeyedLock.tla (atomic per-key lookup + mutex objects) is model-checked for exclusion, independence and non-blocking Try (and its "
                      "check-then-act variant is shown to fail); real KeyedMutex/KeyedRWMutex goroutines are stepped hook by hook through every "
                      "bounded-preemption schedule of two critical sections on a fresh or known key, through gated scenarios (one goroutine keeps "
                      "key 1 until the other finished on key 2 / finished its Try), and random 3-4 goroutine schedules; TLC validates every history "
-                     "against the per-key lock model incl. the harness's own occupancy counter; a deadlock or process crash is a rejected history.",
+                     "against the per-key lock model incl. the harness's own occupancy counter; a deadlock or process crash is a rejected history. "
+                     "Free-running timelines (goroutines really queued inside the mutexes, 2 s progress watchdog) are validated by the same module: "
+                     "only a blocking acquisition of a held or contended key may stay pending. The model carries sync.RWMutex's writer preference "
+                     "and TLC checks liveness (every acquisition returns) under fairness, and that it fails without writer preference.",
                 ref="7-C09", note=CONC_NOTE, technique=TECH_CONC),
 })
 
@@ -97,14 +102,17 @@ CHECKS.update({
                      "at-most-once, wait-returns-after-hand-off, exactly-once-at-quiescence for 2 publishers x 2 subscribers x Pub/PubWait/PubSync, "
                      "timers on/off (and shows the pinned design panics). Scenario scripts drive the real PubSub (every variant, buffer sizes, "
                      "timeouts, Unsub under pending sends, WithOnly, UnsubAll, late subscribers, random mixes), each in crash-contained runs; TLC "
-                     "validates every recorded trace against a monitor stating exactly the clauses of the property.",
+                     "validates every recorded trace against a monitor stating exactly the clauses of the property. Uncontrolled burst rounds "
+                     "(simultaneous Unsubs; publishers racing for the last buffer slot under a timeout) are summarised per batch and validated too.",
                 ref="7-C10", note="trusted: TLC; the scenario driver (records calls, received values, callbacks verbatim, flushes every line); quiescence "
                                   "read from goroutine states; internal sender scheduling is not controllable (any order is accepted by the monitor)",
                 technique="TLA+ design model checked by TLC + scenario scripts on the real code + TLC trace validation against a monitor"),
     "C17": dict(text="Once.tla (sync.Once contract + the wrapper's store/read of the result fields) is model-checked for 3-4 callers; the real "
                      "Once1/2/3 are driven with gated actions: callers racing, callers arriving while the action is blocked (seen parked inside "
                      "sync.Once), callers after completion, under the race detector; TLC validates every trace: one start, by a passed function, "
-                     "no return before completion, all returns equal that run's values and see its effect.",
+                     "no return before completion, all returns equal that run's values and see its effect; callers passing nil; thousands of ungated "
+                     "burst rounds on fresh values. Liveness (every Do returns) by TLC; thorough: an inductive invariant of the design discharged by "
+                     "Apalache (unbounded behaviour length, 5 callers).",
                 ref="7-C17", note="trusted: TLC, the gate-based driver; the winner among simultaneous callers cannot be forced", technique="TLA+ model checked by TLC + gated scenarios on the real code + TLC trace validation"),
     "C18": dict(level="model_checking",
                 text="Register.tla's graph is toured on AtomicValue[int|string|struct] and TLC validates the sequential traces and free-running "
